@@ -239,6 +239,7 @@ def run(ctx):
 
     ctx.attempt(mesh_roundtrip_rule, ctx)
     ctx.attempt(history_paths_rule, ctx)
+    ctx.attempt(restore_fields_rule, ctx)
 
     # R15.6
     r6 = ctx.rule("R15.6", "every Result override restores the requested iteration before computing", min_instances=7)
@@ -491,3 +492,58 @@ def history_paths_rule(ctx):
                 r.fail(f.qualname, f"path-resolved-at-read-time:{f.node.name.lstrip('_')}", f.file, n.lineno, f"_Simu.{f.node.name}", f"the mesh file of a history entry is looked up under `{btxt}` as it is NOW (`{norm_text(n)[:70]}`): after the save folder changed (simu.folder = other, or a second Save(other)) the meshes written by the first save are not found")
             else:
                 r.ok(f"_Simu.{f.node.name}: mesh entries resolved against {btxt}")
+
+
+def restore_fields_rule(ctx, rid="R15.14"):
+    """'brings back exactly the fields that were current when iteration i was saved': Set_Iter of every simulation class
+    hands an ARRAY to _Set_solutions for each field the running time scheme keeps (velocity, acceleration) -- the stored
+    one when the iteration has it, zeros when the iteration was saved under a scheme that does not keep it; never
+    nothing, which would leave the live field of another iteration in place.  Interpreted with a history entry saved
+    under the static scheme and one saved under the dynamic scheme."""
+    from ..xeval import Interp, XObj, EnumVal, Opaque, XRaise
+    from ..xarray import XArray
+    from ..alg import Poly, Q, is_zero
+
+    repo = ctx.repo
+    simu = repo.cls(SIMU)
+    algo_cls = repo.cls("EasyFEA.Simulations.Solvers.AlgoType")
+    members = repo.enum_members(algo_cls.qualname)
+    r = ctx.rule(rid, "Set_Iter passes an array for every field of the running time scheme (stored value, or zeros for an iteration saved without it): no live field survives a restore", min_instances=6)
+    U, V, A = (XArray((4,), [Poly.var(f"{n}{i}") for i in range(4)]) for n in "uva")
+    cfg = [
+        ("EasyFEA.Simulations._elastic.Elastic", "newmark", dict(displacement=U), dict(displacement=U, speed=V, accel=A), 3),
+        ("EasyFEA.Simulations._hyperelastic.HyperElastic", "midpoint", dict(displacement=U), dict(displacement=U, speed=V, accel=A), 3),
+        ("EasyFEA.Simulations._thermal.Thermal", "parabolic", dict(thermal=U), dict(thermal=U, thermalDot=V), 2),
+    ]
+    for cname, algo, static_entry, dynamic_entry, nfields in cfg:
+        ci = repo.cls(cname)
+        f = ci.methods["Set_Iter"]
+        for label, entry in (("saved under the static scheme", static_entry), ("saved under the running scheme", dynamic_entry)):
+            r.instance(fn=f.qualname)
+            got = []
+            entry = dict(entry, indexMesh=0)
+            obj = XObj(ci, {simu.mangle("__indexMesh"): 0, "Get_results": lambda it=-1, entry=entry: dict(entry), "algo": EnumVal(algo_cls, algo, members[algo]), "problemType": Opaque("pt"),
+                            "_Set_solutions": lambda pt, u, v=None, a=None, got=got: got.append((u, v, a))})
+            try:
+                Interp(repo).call_function(f, [0], self_obj=obj)
+            except XRaise as e:
+                r.fail(f.qualname, f"restore:{label}", f.file, f.lineno, f"{ci.name}.Set_Iter", f"{algo} scheme, iteration {label}: raises {e}")
+                continue
+            bad = None
+            if len(got) != 1:
+                bad = f"_Set_solutions is called {len(got)} times"
+            else:
+                want = [U, entry.get("speed", entry.get("thermalDot")), entry.get("accel")][:nfields]
+                for k, (g, w) in enumerate(zip(got[0], want)):
+                    name = ("the primary field", "the rate field", "the acceleration")[k]
+                    if not isinstance(g, XArray):
+                        bad = f"{name} handed to _Set_solutions is {g!r}: the live {name.split()[-1]} of whatever iteration was current stays in place"
+                        break
+                    target = w if w is not None else XArray(U.shape, [Q(0)] * U.size)
+                    if g.shape != target.shape or any(not is_zero(Poly.of(x) - Poly.of(y)) for x, y in zip(g.data, target.data)):
+                        bad = f"{name} restored is {[str(x) for x in g.data]}, expected {'the stored one' if w is not None else 'zeros'}"
+                        break
+            if bad:
+                r.fail(f.qualname, f"restore:{label}", f.file, f.lineno, f"{ci.name}.Set_Iter", f"{algo} scheme, iteration {label}: {bad}")
+            else:
+                r.ok(f"{ci.name} ({algo}), iteration {label}: every field restored")
